@@ -39,6 +39,9 @@ type Prog struct {
 	// Atomic: reduction "no alternative while the running thread holds an outermost
 	// lock in write mode" (vrt.Config.AtomicOuterWrite)
 	Atomic bool `json:"atomic,omitempty"`
+	// Damage: done to the directory after the set-up: "missing-file" removes the file of the
+	// first object, "garbled-file" overwrites it (the calls then meet an unreadable object)
+	Damage string `json:"damage,omitempty"`
 }
 
 // CallRec is the record of one executed call.
@@ -105,6 +108,18 @@ func runProg(prog Prog, prefix []int, bound int, final func(w *World, r *ExecRes
 			vrt.Quiesce()
 			vfs.Cur = w.FS
 			w.DB = sod.Open(w.Root)
+		}
+		if prog.Damage != "" && len(w.Slots) > 0 {
+			if prog.Cfg.Async != 0 {
+				w.DB.FlushAllAndCommit(&Rec{})
+			}
+			p := w.collDir() + "/" + w.fileName(w.Slots[0])
+			switch prog.Damage {
+			case "missing-file":
+				w.FS.Del(p)
+			case "garbled-file":
+				w.FS.Put(p, []byte("{\"K\": 12"))
+			}
 		}
 		r.Started = true
 		vrt.SetSequential(false)
